@@ -607,6 +607,7 @@ func ruleMERGE1(c *Ctx) {
 		info := f.Info()
 		// seeds scratch from existing entry
 		seeded := false
+		extraCond := ""
 		for _, call := range callsMethodNamed(info, f.Body(), "Set") {
 			if len(call.Args) != 1 {
 				continue
@@ -622,11 +623,45 @@ func ruleMERGE1(c *Ctx) {
 						if fl&^merge&^ft.Single["AllowDuplicateNames"] == 0 {
 							seeded = true
 						}
+						// the seeding depends on nothing but the option and whether an entry exists: a shortcut keyed on
+						// the element type (skip the copy for kinds that `do not merge`) has to get every pointer/interface
+						// nesting right and is not accepted without review
+						for _, cc := range enclosingConds(p, f, call) {
+							var atoms func(e ast.Expr)
+							atoms = func(e ast.Expr) {
+								e = ast.Unparen(e)
+								switch x := e.(type) {
+								case *ast.BinaryExpr:
+									if x.Op == token.LAND || x.Op == token.LOR {
+										atoms(x.X)
+										atoms(x.Y)
+										return
+									}
+								case *ast.UnaryExpr:
+									if x.Op == token.NOT {
+										atoms(x.X)
+										return
+									}
+								case *ast.CallExpr:
+									if _, ok := IsFlagGet(info, x); ok {
+										return
+									}
+									if sel, ok := ast.Unparen(x.Fun).(*ast.SelectorExpr); ok && sel.Sel.Name == "IsValid" {
+										return
+									}
+								}
+								extraCond = exprString(e)
+							}
+							atoms(cc.cond)
+						}
 					}
 				}
 			}
 		}
 		c.Oblige("map:seed-from-existing-entry", f.Pos(), seeded, "the scratch value is not initialised from the existing map entry (objects would replace instead of merge)")
+		if seeded {
+			c.Oblige("map:seed-depends-only-on-option", f.Pos(), extraCond == "", "seeding the scratch value from the existing entry is additionally conditional on `"+extraCond+"`: for the element types that condition leaves out, a second object for the same key replaces the entry instead of merging into it")
+		}
 		// SetMapIndex on the destination right after the value unmarshal, and seen tracking right after that
 		var stores []*ast.CallExpr
 		for _, call := range callsMethodNamed(info, f.Body(), "SetMapIndex") {
